@@ -103,7 +103,12 @@ def main():
     # --- compare on real reaction compositions ------------------------------
     rx = corpus.sample(corpus.plain_reactions(), 400 if tier == "quick" else 4000, rng)
     rx += ["CC(=O)[O-]>>CC(=O)O", "[Na+].[Cl-].CCBr>>CCCl", "CCBr.[OH-]>>CCO.[Br-]", "[U]>>[Th]",
-           "CC[N+](C)(C)C.[Br-].[Br-]>>CC[N+](C)(C)C.[Br-]", "CCO>>CC(=O)O", "CC=O.[H][H]>>CCO"]
+           "CC[N+](C)(C)C.[Br-].[Br-]>>CC[N+](C)(C)C.[Br-]", "CCO>>CC(=O)O", "CC=O.[H][H]>>CCO",
+           # sides that differ in net charge only (both signs, several units, repeated ions)
+           "[I-].[I-]>>II", "C[S-].C[S-]>>CSSC", "O=O>>[O-][O-]", "O=C1C=CC(=O)C=C1>>[O-]c1ccc([O-])cc1",
+           "[Cu+].[Cl-].[Cl-]>>[Cu+2].[Cl-].[Cl-]", "[Fe+2]>>[Fe+3]", "[Fe+3]>>[Fe+2]", "CC(=O)O>>CC(=O)[O-]",
+           "[O-]P(=O)([O-])[O-]>>OP(=O)(O)O", "[Na+].[Na+].[O-]C(=O)C([O-])=O>>[Na+].[O-]C(=O)C([O-])=O",
+           "C[N+](C)(C)C.C[N+](C)(C)C>>C[N+](C)(C)C.CN(C)C.[CH3+]", "[Cl-].[Cl-].[Cl-]>>[Cl-].[Cl-]", "[S-2]>>[S-]"]
     cc_in = []
     for s in rx:
         l, r = s.split(">>")
@@ -124,6 +129,25 @@ def main():
         add({"ev": "compare", "smiles": s, "r": ro, "p": po, "verdict": verdict, "diff": diff,
              "bs_diff": bs_diff[0], "bs_u": bs_u[0]})
         cc_in.append((s, lc[0].get("C", 0), rc[0].get("C", 0)))
+    # --- the batch helper used by the validator and the rule-based stage -----
+    # (RSMIDecomposer(data=rows).data_decomposer(): compositions per side for a list of rows)
+    rows = []
+    for s, _, _ in cc_in:
+        l, r = s.split(">>")
+        rows.append({"reactants": l, "products": r})
+    for par, nj in ((False, 1), (True, 2)):
+        dec = RSMIDecomposer(smiles=None, data=[dict(x) for x in rows], reactant_col="reactants", product_col="products",
+                             parallel=par, n_jobs=nj, verbose=0)
+        rds, pds = dec.data_decomposer()
+        for x, rd, pd_ in zip(rows, rds, pds):
+            for side, out in ((x["reactants"], rd), (x["products"], pd_)):
+                oc, oq = oracle.comp(side)
+                truth = dict(oc)
+                if oq:
+                    truth["Q"] = oq
+                add({"ev": "batch_side", "smiles": side, "out": dict(out), "truth": truth, "parallel": par})
+        if len(rds) != len(rows) or len(pds) != len(rows):
+            add({"ev": "batch_side", "smiles": "<length>", "out": {"n": len(rds)}, "truth": {"n": len(rows)}, "parallel": par})
     # --- carbon labels --------------------------------------------------------
     data = [{"reaction": s} for s, _, _ in cc_in]
     labels = CheckCarbonBalance(data, rsmi_col="reaction", symbol=">>", atom_type="C", n_jobs=1).check_carbon_balance()
